@@ -86,11 +86,10 @@ __CPROVER_ensures(g_op_sign_key == jwt->key && g_op_sign_alg == jwt->alg && \
 		  g_op_sign_data == str && g_op_sign_len == str_len) \
 /* failure is signalled through the return value AND the per-call flag */ \
 __CPROVER_ensures(__CPROVER_return_value != 0 ==> jwt->error != 0) \
-__CPROVER_ensures(__CPROVER_old(jwt->error) != 0 ==> jwt->error != 0) \
 __CPROVER_ensures(__CPROVER_return_value == 0 ==> \
 		  (*len >= 1 && *len <= 1024 && __CPROVER_is_fresh(*out, 1024))) \
 __CPROVER_ensures(SPEC_ERRMSG_TERMINATED(jwt)) \
-__CPROVER_ensures(jwt->error != 0 ==> (jwt->error_msg[0] != 0 || __CPROVER_old(jwt->error) != 0))
+SPEC_ERR_MONOTONE(jwt)
 
 DECL_OPS_SIGN_SHA_PEM(contract_ops_sign_sha_pem, GATE_PEM_FULL);
 DECL_OPS_SIGN_SHA_PEM(contract_C09_ops_sign_sha_pem, GATE_PEM_C09);
@@ -116,9 +115,8 @@ __CPROVER_ensures(g_op_verify_ret == __CPROVER_return_value) \
 /* THE clause property C12 names: a rejected signature leaves the per-call \
  * error flag set, whatever the return value is */ \
 __CPROVER_ensures(__CPROVER_return_value != 0 ==> jwt->error != 0) \
-__CPROVER_ensures(__CPROVER_old(jwt->error) != 0 ==> jwt->error != 0) \
 __CPROVER_ensures(SPEC_ERRMSG_TERMINATED(jwt)) \
-__CPROVER_ensures(jwt->error != 0 ==> (jwt->error_msg[0] != 0 || __CPROVER_old(jwt->error) != 0))
+SPEC_ERR_MONOTONE(jwt)
 
 DECL_OPS_VERIFY_SHA_PEM(contract_ops_verify_sha_pem, GATE_PEM_FULL);
 DECL_OPS_VERIFY_SHA_PEM(contract_C09_ops_verify_sha_pem, GATE_PEM_C09);
